@@ -121,6 +121,22 @@ def exchangeZipSpec (P : Frame → Resp) (issued : List Iss) (reg : Frame) (fs :
   else .error (if k = 0 then (if closed then .noenip else .noresponse)
                else (if closed then .rxerror else .partialHeld))
 
+/-- a successful List Identity reply -/
+def IsIdentity (f : Frame) : Prop := f.WF ∧ f.status = 0 ∧ f.cmd = cmdListIdentity
+
+instance (f : Frame) : Decidable (IsIdentity f) := by unfold IsIdentity; infer_instance
+
+/-- the replies of the gateway-opening phase: Register, and List Identity when the proxy identifies the device -/
+def openFrames (ident : Bool) (reg idf : Frame) : List Frame := if ident then [reg, idf] else [reg]
+
+/-- `with proxy:` on a proxy without a gateway, on a connection that will deliver `evs`:
+`open_gateway`, then the operations -/
+def proxyExchange (P : Frame → Resp) (ident : Bool) (depth : Nat) (issued : List Iss) (evs : List Ev) :
+    Except OpenErr (List Res × End) :=
+  match openGateway ident evs with
+  | .error e => .error e
+  | .ok st => .ok ((pipeline P depth 0 issued st).1, (pipeline P depth 0 issued st).2.1)
+
 /-- all complete frames at the front of `bs` (fuel: the number of bytes suffices) -/
 def splitFrames : Nat → Bytes → List Frame
   | 0, _ => []
